@@ -117,8 +117,8 @@ PROPS = {
         "bin": "px_sauce", "budget_ms": 30000, "wall_cap": {"quick": 600, "thorough": 2400},
         "rule": "per writer that appends SAUCE (ans, asc, avt, pcb, bin, xb, tnd, adf, idf, icy): title/author/group of every length 0..=LEN, LEN+1, LEN+5 x 7 content classes (letters, trailing blank, trailing NULs, inner NUL, leading blank, "
                 "high CP437 / control glyphs, all blanks); every comment count 0..=255 (line lengths cycling 0..=64, lines carrying SAUCE00 / COMNT / EOF bytes); every comment line length 0..=64, 65, 70 x 7 classes as only / second line; "
-                "all 8 flag combinations x (no font + the 16 SAUCE font names), also with an attached record that disagrees with the buffer about ice colours; second generation in the same format and cross-format second generation (saved as X, loaded, saved as every other format Y, loaded); every width 1..=1000 the format can hold; split: engine-written and hand-made contents (empty, 1 byte, 127/128/129 bytes, endings CR LF / EOF / SAUCE00 / COMNT / EOF SAUCE, "
-                "a complete inner SAUCE record) x comment counts (all 0..=255 on the engine document; {0,1,2,3,254,255} on the others, thorough all) x 2 comment styles appended by a reference SAUCE writer; non-trivial = every loadable case",
+                "all 8 flag combinations x (no font + the 16 SAUCE font names), also with an attached record that disagrees with the buffer about ice colours; second generation in the same format and cross-format second generation (saved as X, loaded, saved as every other format Y, loaded); every width 1..=1000 the format can hold (bin / idf: every width 1..=510, odd ones included - a width the BinaryText record cannot store has to be refused by the writer); letter spacing / aspect ratio expected from the ANSi, ASCII and BinaryText variants; an empty title / author / group comes back empty; split: engine-written and hand-made contents (empty, 1 byte, 127/128/129 bytes, endings CR LF / EOF / SAUCE00 / COMNT / EOF SAUCE, "
+                "a complete inner SAUCE record; for ans / avt: cursor jumps below the first screen, cursor down 30 lines, scrolling, margins taken from the screen height) x records declaring the height of the content, a taller and a one line picture x comment counts (all 0..=255 on the engine document; {0,1,2,3,254,255} on the others, thorough all) x 2 comment styles appended by a reference SAUCE writer; non-trivial = every loadable case",
         "level_text": "every value of each SAUCE field dimension (lengths, counts, flags, fonts, widths) is written by the real writers and read back by the real loader; every listed content x comment count is split by the real extractor and the pictures compared",
         "level_note": "string fields compare by what a fixed-width padded field can carry (trailing blanks / NULs are padding; a zero-terminated field ends at its first NUL); pictures compare cell by cell, the taller buffer may only have blank rows more",
         "technique": "exhaustive enumeration of finite field domains (lengths, counts, flag sets, widths) on the implementation with a round-trip oracle and a metamorphic content-vs-content+SAUCE oracle using an independent reference SAUCE writer",
